@@ -189,6 +189,7 @@ class TestRecording:
                 "pair": False,
                 "millis": False,
                 "splitting": True,
+                "ctorfail": False,
                 "wl": {"maxv": maxv, "maxc": maxv, "autosplit": autosplit, "diti": diti},
                 "flags": {"records": True, "robot": dev != "base", "comp": False, "norm": False, "file": False, "fullhist": False},
                 "lw": self.lw_init,
